@@ -513,6 +513,87 @@ fn emit_case(w: &World, c: &Case, env: &TxEnv, id: u64, sane: bool, rng: &mut Rn
             }
         }
     }
+    // ---- plans (C17): existence, completion, reported locks and sizes, for a few asset sets
+    let mut plan_masks: Vec<u32> = masks.iter().cloned().take(6).collect();
+    if let Some(last) = masks.last() {
+        plan_masks.push(*last);
+    }
+    for &km in plan_masks.iter() {
+        for &pm in premasks.iter().take(2) {
+            let assets = Assets {
+                w,
+                keymask: km,
+                premask: pm,
+                lock_time: env.lock_time.map(absolute::LockTime::from_consensus),
+                sequence: env.sequence.map(Sequence),
+                ecdsa: &ecdsa,
+                tapleaf: &tapleaf,
+                tapkey,
+                internal_idx: c.internal,
+                cbmap: cbmap_store.as_ref(),
+            };
+            for mall in [false, true] {
+                let mode = if mall { "mall" } else { "nonmall" };
+                let r = catch_unwind(AssertUnwindSafe(|| {
+                    let d = c.desc.clone();
+                    let p = if mall { d.into_plan_mall(&assets) } else { d.into_plan(&assets) };
+                    match p {
+                        Err(_) => None,
+                        Ok(plan) => {
+                            let sat = plan.satisfy(&assets);
+                            Some((
+                                plan.absolute_timelock.map(|l| l.to_consensus_u32()),
+                                plan.relative_timelock.map(|l| l.to_sequence().to_consensus_u32()),
+                                plan.witness_size(),
+                                plan.scriptsig_size(),
+                                plan.satisfaction_weight(),
+                                sat,
+                            ))
+                        }
+                    }
+                }));
+                match r {
+                    Err(_) => writeln!(out, "PLAN {} {} {} PANIC", mode, km, pm).unwrap(),
+                    Ok(None) => writeln!(out, "PLAN {} {} {} NONE", mode, km, pm).unwrap(),
+                    Ok(Some((a, rl, ws, ss, wt, sat))) => {
+                        let mut l = format!(
+                            "PLAN {} {} {} OK {} {} {} {} {}",
+                            mode,
+                            km,
+                            pm,
+                            a.map(|x| x.to_string()).unwrap_or("-".into()),
+                            rl.map(|x| x.to_string()).unwrap_or("-".into()),
+                            ws,
+                            ss,
+                            wt
+                        );
+                        match sat {
+                            Err(_) => l.push_str(" SATERR"),
+                            Ok((wit, ssig)) => {
+                                // real serialized sizes
+                                let mut wser = 0usize;
+                                if !wit.is_empty() {
+                                    wser += bitcoin::VarInt(wit.len() as u64).size();
+                                    for it in wit.iter() {
+                                        wser += bitcoin::VarInt(it.len() as u64).size() + it.len();
+                                    }
+                                }
+                                let sser = bitcoin::VarInt(ssig.len() as u64).size() + ssig.len();
+                                l.push_str(&format!(" REAL {} {} SAT {}", wser, sser, wit.len()));
+                                for it in wit.iter() {
+                                    l.push(' ');
+                                    l.push_str(&hex(it));
+                                }
+                                l.push_str(" S ");
+                                l.push_str(&hex(ssig.as_bytes()));
+                            }
+                        }
+                        writeln!(out, "{}", l).unwrap();
+                    }
+                }
+            }
+        }
+    }
     let _ = DescriptorType::Bare;
     let _ = <Key as ToPublicKey>::to_public_key;
     writeln!(out, "END").unwrap();
